@@ -523,6 +523,11 @@ class Rmcp(object):
         check_completion_code(rsp.completion_code)
 
     def establish_session(self, session):
+        # the keep-alive of an earlier session must neither run into this
+        # handshake nor survive it (the stopper joins the thread)
+        if self._stop_keep_alive:
+            self._stop_keep_alive()
+            self._stop_keep_alive = None
         self._session = None
         # the caller's Session object may have carried a session before (one
         # that was lost stays "activated"): nothing of it enters this handshake
